@@ -32,7 +32,9 @@ KIJ_TABLE = [("H2O(g)", "CO2(g)", 0.25), ("CH4(g)", "CO2(g)", 0.1), ("O2(g)", "N
 
 TOL_EOS = 1e-4        # statement: P, V, T, n satisfy the equation of state, relative 1e-4
 TOL_PHI = 1e-6        # statement: fugacity coefficient matches the equation of state, 1e-6
-TOL_ID = 1e-6         # identities without a tolerance in the statement (x_i P, sum p_i = P, phi_i p_i = 10^SI_i): see run()
+TOL_ID = 1e-4         # identities without a tolerance in the statement (x_i P, sum p_i = P, phi_i p_i = 10^SI_i): see run()
+P_MIN, P_MAX = 0.01, 1000.0       # quantifier of the statement: rows whose reported total pressure is outside are not judged
+X_MIN = 1e-12         # components below this mole fraction are not judged component-wise (engine floors, MIN_TOTAL = 1e-25 mol)
 PHI_LO, PHI_HI = 0.0101, 84.0     # strictly inside the documented clamp 0.01 .. 85 (engine: exp(-4.6) .. exp(4.44))
 
 # ------------------------------------------------------------------------------------------------ databases (per process)
@@ -62,7 +64,7 @@ def fmt(v):
 
 
 def solution_block(case, pp):
-    lines = ["SOLUTION 1", " temp %s" % fmt(case["T"]), " pH 7", " -water 1"]
+    lines = ["SOLUTION 1", " temp %s" % fmt(case["T"]), " pH 7", " -water 0.1"]
     if case["soln"] == "sat":
         for g, p in pp:
             if g in BOUNDARY and p > 0:
@@ -153,6 +155,13 @@ def parse_gas_raw(dump):
 
 
 # ------------------------------------------------------------------------------------------------ oracle
+def p10(v):
+    try:
+        return 10.0 ** v
+    except OverflowError:
+        return float("inf")
+
+
 def cell(row, k):
     v = row.get(k)
     if isinstance(v, dict):
@@ -189,7 +198,7 @@ class Judge:
         return "mixed"
 
     # -- one gas-phase row -------------------------------------------------------------------
-    def gas_row(self, row, where, force_ideal=False):
+    def gas_row(self, row, where):
         c = self.case
         names = c["gases"]
         T = cell(row, "tk")
@@ -206,7 +215,7 @@ class Judge:
         if any(not isinstance(v, (int, float)) or v != v or abs(v) == float("inf") for v in nums):
             self.bad("non-numeric read-out %s" % where, "row %s of %r has a non-numeric / non-finite cell: %r" % (where, c, row))
             return
-        eos = "ideal" if force_ideal else self.eos_kind()
+        eos = self.eos_kind()
         if eos == "ideal":
             # PR_P / PR_PHI are documented for Peng-Robinson gases only; the documented partial pressure of an ideal gas
             # component is 10^SI (manual: "for a gas, SI = log10(fugacity)", example 7 uses 10^SI / SR)
@@ -215,18 +224,26 @@ class Judge:
         nsum = sum(n)
         present = ntot > 0 and P > 0 and nsum > 0
         if not present:
-            self.flags.add("%s:absent" % where)
-            if c["type"] == "P" and where == "react":
+            self.flags.add("absent")
+            if c["type"] == "P":
                 # the statement only says "exists only if"; the converse is recorded as a diagnostic, never a problem
-                f = sum(10.0 ** s for s in si if s > -90)
+                f = sum(p10(s) for s in si if s > -90)
                 if eos == "ideal" and f > c["P"] * (1 + TOL_EOS):
                     self.diags.append("fixed-pressure gas phase absent although the sum of equilibrium partial pressures %.6g exceeds P=%g: %r" % (f, c["P"], c))
             return
-        self.flags.add("%s:present" % where)
+        if not (P_MIN <= P <= P_MAX):
+            # outside the quantifier of the statement (pressures 0.01 .. 1000 atm): counted, not judged
+            self.flags.add("present, P outside 0.01..1000 atm (not judged)")
+            return
+        self.flags.add("present")
         x = [v / nsum for v in n]
-        live = [k for k in range(len(names)) if n[k] > 0]
-        # (a) the two reports of each quantity are the same number (both are "reported"; each is judged below through P/Vm)
+        live = [k for k in range(len(names)) if x[k] >= X_MIN]
+        if len(live) < len(names):
+            self.flags.add("trace component not judged")
+        xl = [x[k] for k in live]
+        xl = [v / sum(xl) for v in xl]
         vm_cols = V / ntot
+        valid_state = True          # a Peng-Robinson state exists at the reported density (V/n > b and P_PR(V/n) > 0)
         # (b) equation of state
         if eos == "ideal":
             for label, PP, VM in (("sel", P, vm_cols), ("basic", gp, gvm)):
@@ -237,19 +254,17 @@ class Judge:
             oracle_phi = [1.0] * len(names)
             judged_phi = True
         else:
-            mix = G.Mixture([names[k] for k in live], [x[k] for k in live], T, self.gdb, self.kij)
+            mix = G.Mixture([names[k] for k in live], xl, T, self.gdb, self.kij)
             judged_phi = False
             oracle_phi = [None] * len(names)
             for label, PP, VM in (("sel", P, vm_cols), ("basic", gp, gvm)):
-                if VM <= mix.b:
-                    self.flags.add("vm<=b")
-                    self.diags.append("molar volume %r <= covolume %r (%s): %r" % (VM, mix.b, tag, c))
+                Pe = mix.pressure(VM) if VM > mix.b else float("nan")
+                if not (Pe > 0):
+                    valid_state = False
+                    self.flags.add("no PR state at the reported density (V/n <= b or P_PR(V/n) <= 0)")
                     continue
-                Pe = mix.pressure(VM)
                 roots, near, A, B = mix.z_roots(PP)
-                roots_e, near_e = ([], True)
-                if Pe > 0:
-                    roots_e, near_e, _, _ = mix.z_roots(Pe)
+                roots_e, near_e, _, _ = mix.z_roots(Pe)
                 one_root = len(roots) == 1 and not near and len(roots_e) == 1 and not near_e
                 rP = G.rel(Pe, PP)
                 rV = min([G.rel(z * G.R * T / PP, VM) for z in roots] or [float("inf")])
@@ -260,12 +275,10 @@ class Judge:
                     if r > TOL_EOS:
                         self.bad("eos Peng-Robinson %s %s" % (label, tag),
                                  "P=%r V/n=%r T=%r x=%r: PR pressure at this molar volume %r (rel %.3g), PR molar volume at this pressure %r (rel %.3g); case %r" % (
-                                     PP, VM, T, dict(zip(names, x)), Pe, rP, [z * G.R * T / PP for z in roots], rV, c))
+                                     PP, VM, T, dict(zip(names, x)), Pe, rP, [float(z * G.R * T / PP) for z in roots], rV, c))
                 else:
-                    self.flags.add("multi-root")
+                    self.flags.add("three-root region")
                     self.stat("eos-PR (three-root region, not judged)", r)
-                    if r > TOL_EOS and len(self.diags) < 3:
-                        self.diags.append("three-root region (not judged): P=%r Vm=%r PR P(Vm)=%r rel %.3g: %r" % (PP, VM, Pe, r, c))
                 if label == "sel" and one_root:
                     lp = mix.ln_phi(PP, roots[0])
                     for kk, k in enumerate(live):
@@ -276,11 +289,11 @@ class Judge:
             r = G.rel(p[k], x[k] * P)
             self.stat("p_i = x_i P", r)
             if r > TOL_ID:
-                self.bad("partial pressure share %s" % tag, "%s: PR_P=%r but x_i P = %r * %r = %r (rel %.3g); case %r" % (names[k], p[k], x[k], P, x[k] * P, r, c))
-        r = G.rel(sum(p[k] for k in live), P)
+                self.bad("partial pressure share %s" % tag, "%s: partial pressure %r but x_i P = %r * %r = %r (rel %.3g); case %r" % (names[k], p[k], x[k], P, x[k] * P, r, c))
+        r = G.rel(sum(p[k] for k in live), P * sum(x[k] for k in live))
         self.stat("sum p_i = P", r)
         if r > TOL_ID:
-            self.bad("partial pressure sum %s" % tag, "sum of PR_P %r != total pressure %r (rel %.3g); case %r" % (sum(p[k] for k in live), P, r, c))
+            self.bad("partial pressure sum %s" % tag, "sum of partial pressures %r != total pressure %r (rel %.3g); case %r" % (sum(p[k] for k in live), P, r, c))
         # (d) fugacity coefficient matches the equation of state, inside the clamp
         if judged_phi:
             for k in live:
@@ -297,13 +310,22 @@ class Judge:
         # (e) fugacity = 10^SI
         for k in live:
             f = phi[k] * p[k]
-            r = G.rel(f, 10.0 ** si[k])
-            self.stat("phi_i p_i = 10^SI_i", r)
+            t = p10(si[k])
+            r = G.rel(f, t)
+            self.stat("phi_i p_i = 10^SI_i" if valid_state else "phi_i p_i = 10^SI_i (rows without a PR state at V/n)", r)
             if r > TOL_ID:
-                self.bad("fugacity vs SI %s" % tag, "%s: phi*p = %r * %r = %r but 10^SI = 10^%r = %r (rel %.3g); case %r" % (names[k], phi[k], p[k], f, si[k], 10.0 ** si[k], r, c))
+                ratio = t / f if f > 0 else float("inf")
+                k2 = round(math.log(ratio, 2)) if 0 < ratio < float("inf") else 0
+                if eos == "PR" and c["type"] == "V" and not valid_state and k2 >= 1 and abs(ratio / 2.0 ** k2 - 1) <= TOL_ID:
+                    # narrow fingerprint of one demonstrated mechanism (see the final report / known findings)
+                    self.bad("fugacity vs SI: fixed-volume Peng-Robinson gas without a PR state at V/n (10^SI = 2^k phi p)",
+                             "%s: reported P=%r V=%r n=%r T=%r: V/n=%r has %s; 10^SI = %r = 2^%d x phi*p = %r * %r; case %r" % (
+                                 names[k], P, V, ntot, T, vm_cols, "V/n <= b" if vm_cols <= mix.b else "negative PR pressure %r" % mix.pressure(vm_cols), t, k2, phi[k], p[k], c))
+                else:
+                    self.bad("fugacity vs SI %s" % tag, "%s: phi*p = %r * %r = %r but 10^SI = 10^%r = %r (rel %.3g); case %r" % (names[k], phi[k], p[k], f, si[k], t, r, c))
         # (f) a fixed-pressure phase exists only if the equilibrium partial pressures reach the fixed pressure
-        if c["type"] == "P" and where == "react":
-            s = sum(10.0 ** si[k] / phi[k] for k in live if phi[k] > 0)
+        if c["type"] == "P":
+            s = sum(p10(si[k]) / phi[k] for k in range(len(names)) if phi[k] > 0 and si[k] > -90)
             r = (c["P"] - s) / c["P"]
             self.stat("existence: sum of equilibrium partial pressures >= P", max(r, 0.0))
             if r > TOL_EOS:
@@ -373,10 +395,10 @@ class Judge:
                     self.bad("fugacity coefficient %s" % tag, "%s: PR_PHI=%r for an ideal gas; case %r" % (g, phi, c))
                 continue
             # fugacity = 10^SI
-            r = G.rel(phi * p, 10.0 ** si)
+            r = G.rel(phi * p, p10(si))
             self.stat("equi: phi p = 10^SI", r)
             if r > TOL_ID:
-                self.bad("fugacity vs SI %s" % tag, "%s: phi*p = %r * %r = %r but 10^SI = 10^%r = %r (rel %.3g); case %r" % (g, phi, p, phi * p, si, 10.0 ** si, r, c))
+                self.bad("fugacity vs SI %s" % tag, "%s: phi*p = %r * %r = %r but 10^SI = 10^%r = %r (rel %.3g); case %r" % (g, phi, p, phi * p, si, p10(si), r, c))
             # the target of a gas in EQUILIBRIUM_PHASES is its (partial) pressure - manual, not in the statement: diagnostic
             want = partial_pressures(c)[k][1]
             if G.rel(p, want) > TOL_ID:
@@ -537,7 +559,9 @@ def run(tier):
         "ideal gases: the partial pressure read-out is SR(gas) = 10^SI (PR_P / PR_PHI are documented for Peng-Robinson gases only; PR_P returns the stored input value there)",
         "'two-phase region of the cubic' = the cubic in Z has three real roots at the reported pressure or at the oracle's pressure, or is within 1e-3 of a double root; EOS and phi are not judged there, the identities are",
         "EOS relation passes if either the pressure at the reported molar volume or the molar volume at the reported pressure is within 1e-4",
-        "identities for which the statement gives no tolerance (p_i = x_i P, sum p_i = P, phi_i p_i = 10^SI_i) are judged at 1e-6 relative",
+        "identities for which the statement gives no tolerance (p_i = x_i P, sum p_i = P, phi_i p_i = 10^SI_i) are judged at the statement's general 1e-4 relative (measured solver noise at 0.01 atm is up to ~2e-5)",
+        "rows whose reported total pressure is outside 0.01..1000 atm are outside the quantifier and not judged; components with mole fraction < 1e-12 are not judged component-wise",
+        "every solution has 0.1 kg water and the gas 1 L (initially), so that low-pressure gas is not a trace of the system",
         "EQUILIBRIUM_PHASES: the fugacity coefficient is compared with the pure-gas equation of state for a single gas only; for two gases only fugacity = 10^SI is judged",
     ]
     pool = core.Pool()
@@ -578,8 +602,8 @@ def run(tier):
     if total and st.completed < 0.5 * total:
         raise SystemExit("C19 harness: only %d of %d lattice points completed - the check is broken, not violated" % (st.completed, total))
     if not stop:
-        for k in ("eos-PR", "eos-ideal", "phi", "phi_i p_i = 10^SI_i", "p_i = x_i P", "equi: phi"):
-            if st.rel.get(k, [0])[0] < 100:
+        for k in ("eos-PR", "eos-ideal", "phi", "phi_i p_i = 10^SI_i", "p_i = x_i P", "equi: phi", "initial: eos-PR"):
+            if st.rel.get(k, [0])[0] < 50:
                 raise SystemExit("C19 harness: relation %r was judged only %d times" % (k, st.rel.get(k, [0])[0]))
         if len(ev.outcomes) < 10:
             raise SystemExit("C19 harness: only %d distinct outcomes" % len(ev.outcomes))
